@@ -1,14 +1,30 @@
 (** C12 — every strftime specifier renders the documented field.  Theorem-only file: each theorem
-    is closed by [exact] of a lemma of Proofs/C12.v and followed by [Print Assumptions].
-    The documentation table is Spec/StrftimeDoc.v; the model is Model/Strftime.v (item iterator)
-    and Model/Format.v (formatter); [strict_items fmt] is what the formatter consumes of
-    [StrftimeItems::new(fmt)]: the items up to and including the first [Error]. *)
-From Coq Require Import ZArith List Bool.
-From V Require Import Base.Int Base.IO Spec.StrftimeDoc Model.Items Model.Strftime Model.Format Proofs.C12.
+    is closed by [exact] of a lemma of Proofs/C12*.v and followed by
+    [Print Assumptions].
+
+    Vocabulary.  The documentation table is Spec/StrftimeDoc.v ([doc_table], [tokens],
+    [render_num], [render_fix], [doc_format]) over the calendar of Spec/Gregorian.v; the model is
+    Model/Strftime.v (the [StrftimeItems] iterator) and Model/Format.v ([DelayedFormat]).
+    [strict_items fmt] = the items [StrftimeItems::new(fmt)] yields up to and including the first
+    [Error] (what the formatter consumes); [doc_items fmt] = the documented item list;
+    [norm_items] forgets the Literal/Space distinction and the chunking of text.
+    [args_view a sv]: the formatter's arguments [a] (optional packed date, time, offset with its
+    name) denote the specification-level value [sv] (day number, second of day, nanosecond, leap
+    flag, offset); its date part [date_view d dn] is the calendar reading of a packed [NaiveDate]
+    (C01's theorems discharge it for every date).
+    [claim r out]: r = ROk s -> out = Ok with text s; r = RFail -> out = Err(fmt::Error);
+    r = RSkip (outside the property's domain) -> no claim. *)
+From Coq Require Import ZArith List Bool String.
+From V Require Import Base.Int Base.IO Spec.StrftimeDoc Model.Items Gen.Strftime Model.Strftime Model.Format
+  Proofs.C12 Proofs.C12Str Proofs.C12Tok Proofs.C12Fam Proofs.C12View.
+From V Require Import Spec.Gregorian Model.C12 Judge.C12 Proofs.C08Sweeps.
+From V Require Model.DateTime Model.Time.
 Import ListNotations.
 Open Scope Z_scope.
 
-(* every documented specifier x padding modifier parses to the documented item list *)
+(** spec_item_table: every documented specifier x padding modifier parses to the documented item
+    list; composites to their documented expansion; a modifier on a non-numeric or composite
+    specifier to [Error] *)
 Theorem C12_spec_item_table : forall name e m,
   In (name, e) doc_table -> In m modifiers ->
   rmap norm_items (strict_items (37 :: m ++ name)) = Val (norm_items (doc_items (37 :: m ++ name))).
@@ -21,7 +37,163 @@ Theorem C12_unknown_specifier_is_error : forall c, 0 <= c < 128 ->
 Proof. exact unknown_specifier_is_error. Qed.
 Print Assumptions C12_unknown_specifier_is_error.
 
-Theorem C12_two_digits : forall v, 0 <= v < 100 ->
-  dec_nonneg v = if v <? 10 then [48 + v] else [48 + v / 10; 48 + v mod 10].
-Proof. exact two_digits. Qed.
-Print Assumptions C12_two_digits.
+(** render_item_spec, numeric items: for ALL values (any year of the i32 range incl. negative and
+    5-6 digit years, leap seconds, any offset) the model output is the documented text, and
+    formatting fails exactly when the value lacks the field *)
+Theorem C12_render_numeric_spec : forall a sv f p, args_view a sv ->
+  claim (render_num sv f p) (format_numeric a (numeric_of f) (pad_of p)).
+Proof. exact render_numeric_spec. Qed.
+Print Assumptions C12_render_numeric_spec.
+
+(** render_item_spec, fixed items (names, am/pm, fractions, zone name, the four offset forms) *)
+Theorem C12_render_fixed_spec : forall a sv f, args_view a sv -> tfield_documented f ->
+  claim (render_fix sv f) (format_fixed a (fixed_of f)).
+Proof. exact render_fixed_spec. Qed.
+Print Assumptions C12_render_fixed_spec.
+
+(** the four offset items for every offset a FixedOffset can carry: rounding to the minute for
+    %z %:z, exact seconds for %::z, truncation to hours for %:::z *)
+Theorem C12_offset_items_spec : forall off, -86400 < off < 86400 ->
+  offset_format (mk_of OP_Minutes C_Maybe false PadZero) off = fok (offset_text off false 0) /\
+  offset_format (mk_of OP_Minutes C_Colon false PadZero) off = fok (offset_text off true 0) /\
+  offset_format (mk_of OP_Seconds C_Colon false PadZero) off = fok (offset_text off true 1) /\
+  offset_format (mk_of OP_Hours C_None false PadZero) off = fok (offset_text off false 2).
+Proof. exact offset_items_spec. Qed.
+Print Assumptions C12_offset_items_spec.
+
+(** %+ renders as its documented expansion %Y-%m-%dT%H:%M:%S%.f%:z *)
+Theorem C12_render_iso_spec : forall a sv, args_view a sv ->
+  claim (render_all sv (tokens iso_expansion) []) (format_fixed a F_RFC3339).
+Proof. exact render_iso_spec. Qed.
+Print Assumptions C12_render_iso_spec.
+
+(** the century item on every i32 year (the repaired %C): floor(year/100), "-" and no padding when
+    negative *)
+Theorem C12_write_n_is_pad_num : forall n v p always, 0 <= n < 1000 ->
+  write_n n v (pad_of p) always = fok (pad_num p n always v).
+Proof. exact write_n_spec. Qed.
+Print Assumptions C12_write_n_is_pad_num.
+
+(** format_concat: the formatter's output is the concatenation of the item renderings, stopping at
+    the first item that fails *)
+Theorem C12_format_concat : forall fuel a st items,
+  sf_until_err fuel st [] = Val items ->
+  forall acc, write_to fuel a st acc = write_items a items acc.
+Proof. exact format_concat. Qed.
+Print Assumptions C12_format_concat.
+
+(** format_spec: whenever the item list of a format string agrees with the table (decidable by
+    computation for a given string), formatting ANY value gives the documented text / failure *)
+Theorem C12_format_spec : forall a sv fmt, args_view a sv -> tokenization_agrees fmt ->
+  claim (doc_format sv fmt) (delayed_display a (sf_new fmt)).
+Proof. exact format_spec. Qed.
+Print Assumptions C12_format_spec.
+
+(** strftime_terminates (shared with C15): every parse step consumes at least one input byte —
+    on the repaired code also when it yields [Error] — and queues at most 12 items *)
+Theorem C12_parse_next_item_consumes : forall lenient q r rm it q',
+  SF_ERROR_CONSUMES = true \/ lenient = true ->
+  parse_next_item lenient q r = Val (Some (rm, it), q') ->
+  blen rm < blen r /\ queue_ok q q'.
+Proof. exact parse_next_item_consumes. Qed.
+Print Assumptions C12_parse_next_item_consumes.
+
+(** ... hence iteration ends within the bound used as fuel everywhere, after at most
+    13 * (bytes of input) items, for every byte string, strict and lenient *)
+Theorem C12_strftime_terminates : forall s lenient,
+  SF_ERROR_CONSUMES = true \/ lenient = true ->
+  match sf_take (S (sf_bound s)) (mk_sfi s [] lenient) [] with
+  | Val (Some l) => Z.of_nat (List.length l) <= 13 * blen s
+  | Val None => False
+  | Panic => True
+  | OutOfFuel => False
+  end.
+Proof. exact strftime_terminates. Qed.
+Print Assumptions C12_strftime_terminates.
+
+(** literal_copied: a format string without '%' (any valid UTF-8, including multi-byte text and
+    Unicode white space) is written out unchanged, whatever the value *)
+Theorem C12_literal_copied : forall a fmt, utf8_valid fmt = true -> ~ In 37 fmt ->
+  delayed_display a (sf_new fmt) = fok fmt.
+Proof. exact literal_copied. Qed.
+Print Assumptions C12_literal_copied.
+
+(** the documented family: valid UTF-8 in which every '%' starts a documented specifier, optionally
+    preceded by a padding modifier ([wf_scan] decides it).  Its item lists agree with the table:
+    arbitrary text in between, composites in place, and the [Error] item for a modifier on a
+    non-numeric or composite specifier *)
+Theorem C12_tokenization_documented_family : forall fmt,
+  documented_family fmt -> tokenization_agrees fmt.
+Proof. exact tokenization_documented_family. Qed.
+Print Assumptions C12_tokenization_documented_family.
+
+(** C12 for the formatter on the documented family: given arguments that denote the value
+    ([args_view], discharged for every value by the five theorems below), every format string
+    built from the documented specifiers and modifiers renders as documented, or fails exactly
+    where the documentation says *)
+Theorem C12_format_spec_family : forall a sv fmt, args_view a sv -> documented_family fmt ->
+  claim (doc_format sv fmt) (delayed_display a (sf_new fmt)).
+Proof. exact format_spec_family. Qed.
+Print Assumptions C12_format_spec_family.
+
+(** the calendar view of every valid NaiveDate (from C01/C08's theorems over [repr]) *)
+Theorem C12_date_view_of_repr : forall y o d, repr y o d -> date_view d (dn_of_yo y o).
+Proof. exact date_view_of_repr. Qed.
+Print Assumptions C12_date_view_of_repr.
+
+(** the arguments `format_with_items` hands to the formatter denote the value, for every value of
+    each kind; for DateTime<FixedOffset> whenever the local calendar day is a valid NaiveDate *)
+Theorem C12_args_view_date : forall y o sv, sval_of 0 (VTup [VInt y; VInt o]) = Some sv ->
+  exists d, DateTime.dec_date (VTup [VInt y; VInt o]) = Some d /\ args_view (fa_of_date d) sv.
+Proof. exact args_view_date. Qed.
+Print Assumptions C12_args_view_date.
+Theorem C12_args_view_time : forall s f sv, sval_of 1 (VTup [VInt s; VInt f]) = Some sv ->
+  exists t, Time.dec_time (VTup [VInt s; VInt f]) = Some t /\ args_view (fa_of_time t) sv.
+Proof. exact args_view_time. Qed.
+Print Assumptions C12_args_view_time.
+Theorem C12_args_view_ndt : forall y o s f sv, sval_of 2 (VTup [VInt y; VInt o; VInt s; VInt f]) = Some sv ->
+  exists n, DateTime.dec_ndt (VTup [VInt y; VInt o; VInt s; VInt f]) = Some n /\ args_view (fa_of_ndt n) sv.
+Proof. exact args_view_ndt. Qed.
+Print Assumptions C12_args_view_ndt.
+Theorem C12_args_view_dtz : forall y o s f off sv,
+  sval_of 3 (VTup [VInt y; VInt o; VInt s; VInt f; VInt off]) = Some sv ->
+  (forall n, sv_dn sv = Some n -> dn_in_range n = true) ->
+  exists z a, DateTime.dec_dtz (VTup [VInt y; VInt o; VInt s; VInt f; VInt off]) = Some z /\
+              fa_of_dtz z = Val a /\ args_view a sv.
+Proof. exact args_view_dtz. Qed.
+Print Assumptions C12_args_view_dtz.
+Theorem C12_args_view_utc : forall y o s f sv, sval_of 4 (VTup [VInt y; VInt o; VInt s; VInt f]) = Some sv ->
+  exists n a, DateTime.dec_ndt (VTup [VInt y; VInt o; VInt s; VInt f]) = Some n /\
+              fa_of_utc n = Val a /\ args_view a sv.
+Proof. exact args_view_utc. Qed.
+Print Assumptions C12_args_view_utc.
+
+(** C12 holds of the model, over cases: for every kind of value and every format string of the
+    documented family the judge (the executable statement of the property) accepts the model's
+    output of `sf.fmt` — the documented text, or err:fmt exactly when a field is missing or a
+    modifier is put on a non-numeric specifier.
+    Partial in three respects: (1) a DateTime<FixedOffset> whose local calendar day falls outside
+    the NaiveDate range (the BEFORE_MIN / AFTER_MAX sentinels of overflowing_naive_local) is
+    excluded by the second hypothesis; (2) format strings with an undocumented specifier are
+    outside [documented_family] (Error proved for an isolated ASCII specifier only); (3) the
+    `sf.items` / `sf.fmtl` ops are covered by the item-level theorems above, not at judge level. *)
+Theorem C12_holds_fmt_partial : forall kind v fmt,
+  documented_family fmt ->
+  (forall sv n, sval_of kind v = Some sv -> sv_dn sv = Some n -> dn_in_range n = true) ->
+  accepted (judge (bytes_of_string "sf.fmt") [VInt kind; v; VStr fmt]
+                  (run (bytes_of_string "sf.fmt") [VInt kind; v; VStr fmt])).
+Proof. exact C12_holds_fmt. Qed.
+Print Assumptions C12_holds_fmt_partial.
+
+(** the hypotheses are inhabited: 2001-07-08T00:34:54 (leap second) +09:30, and a format string
+    with composites, modifiers, multi-byte text, %+ and %% *)
+Example C12_args_view_inhabited : args_view ex_args ex_sval.
+Proof. exact ex_args_view. Qed.
+Print Assumptions C12_args_view_inhabited.
+Example C12_family_inhabited : documented_family ex_fmt.
+Proof. exact ex_family. Qed.
+Print Assumptions C12_family_inhabited.
+Example C12_format_example : delayed_display ex_args (sf_new ex_fmt) =
+  match doc_format ex_sval ex_fmt with ROk s => fok s | _ => ferr end.
+Proof. exact ex_format. Qed.
+Print Assumptions C12_format_example.
